@@ -142,7 +142,7 @@ def check_case(case, info=None):
     set_global_language_to(system)
     try:
         def fresh():
-            return [[ScoredTree(gen_tree.tree_of_case(tc), -0.5 * (k + 1)) for k, tc in enumerate(sent)]
+            return [[ScoredTree(tr, -0.5 * (k + 1)) for k, tr in enumerate(gen_tree.sentence_trees(sent))]
                     for sent in case['batch']]
         batch = fresh()
         flat = [(i, j, st.tree) for i, sent in enumerate(batch, 1) for j, st in enumerate(sent, 1)]
